@@ -49,6 +49,22 @@
 (*   StarByCount  starmap/starcall take the single-call shortcut when      *)
 (*                there is ONE ITEM (FALSE: when the first argument tuple  *)
 (*                has one element, whatever the number of items)           *)
+(*                                                                         *)
+(* Several calls on ONE ThreadPool object (MaxCalls > 1): a call that has  *)
+(* ended - completed or aborted by an exception - may be followed by       *)
+(* another one (NewCall).  Items keep a pool-wide identity: the items of   *)
+(* the current call are base .. base + n - 1, the index the code works     *)
+(* with (task tuple, key of `results`, next_result) is Key(item).  What a  *)
+(* call leaves behind is kept: workers that have not exited, sentinels,    *)
+(* the item a worker still holds (it will put its result), results in the  *)
+(* result queue.  `results` and next_result are locals of map_each and     *)
+(* start empty.                                                            *)
+(*   FreshQueues  map_each creates its two queues for every call and the   *)
+(*                workers of the call work on these (TRUE: nothing of an   *)
+(*                earlier call can reach a later one; FALSE: the queues    *)
+(*                of the pool object, as written in the pinned tree - a    *)
+(*                result that arrives late is taken for the result of the  *)
+(*                item with the same index of the next call)               *)
 (***************************************************************************)
 EXTENDS Integers, Sequences, FiniteSets, TLC
 
@@ -56,18 +72,23 @@ CONSTANTS MinN, MaxN,   \* a call has MinN .. MaxN items
           Sizes,        \* set of pool sizes
           Entries,      \* subset of {"imap", "star1", "star2"}: imap/map, starmap/starcall with 1-/2-ary tuples
           Modes,        \* subset of BOOLEAN: TRUE = raise mode, FALSE = result objects
-          SeqRaises, StarByCount
+          SeqRaises, StarByCount,
+          MaxCalls,     \* number of calls on one pool object
+          FreshQueues
 
 None == -1
 MaxSize == CHOOSE s \in Sizes : \A t \in Sizes : t <= s
 WLoc == {"start", "idle", "gotNone", "exited"}      \* worker program points at which no item is held
 Items(k) == 0 .. k - 1
+Ids == 0 .. MaxCalls * MaxN - 1            \* pool-wide item identities
 
 \* which failing sets are explored for a call of k items (overridable by model-checking instances)
 FailSets(k, rm) == SUBSET Items(k)
 
 VARIABLES
-  n, fail, raiseMode, size,   \* the call
+  n, fail, raiseMode, size,   \* the call (fail: failing items of all calls so far)
+  base, calls,  \* first item of the current call, number of calls so far
+  threads,      \* worker threads that share the current queues
   entry,        \* entry point until dispatched, then the path taken: "single" | "seq" | "pool"
   cpc,          \* consumer program counter
   ci,           \* consumer loop counter (tasks put / sequential index / sentinels put)
@@ -84,12 +105,14 @@ VARIABLES
   hold          \* [item -> "-" | "put" | "taskDone"]: a worker ran the item and is before result_queue.put /
                 \*   before task_queue.task_done
 
-call  == <<n, fail, raiseMode, size, entry>>
+call  == <<n, fail, raiseMode, size, entry, base, calls>>
 cvars == <<cpc, ci, phase, culprit, buf, nextR, out, raised>>
 qvars == <<taskQ, unfinished, resultQ>>
-wvars == <<wn, hold>>
+wvars == <<wn, hold, threads>>
 vars  == <<call, cvars, qvars, wvars>>
 
+Cur == base .. base + n - 1                  \* the items of the current call
+Key(i) == IF i >= base THEN i - base ELSE i  \* (two calls: the earlier call started at 0)
 Kind(i) == IF i \in fail THEN "exc" ELSE "val"
 Res(i)  == <<Kind(i), i>>
 
@@ -97,15 +120,16 @@ CPcs == {"call", "single", "seq", "put", "emptyT", "emptyR", "get", "join", "put
          "fEmptyT", "fGetT", "fDoneT", "fEmptyR", "fGetR", "fDoneR", "done"}
 
 TypeOK ==
-  /\ n \in 0 .. MaxN /\ fail \subseteq Items(n) /\ raiseMode \in BOOLEAN /\ size \in Sizes
+  /\ n \in 0 .. MaxN /\ fail \subseteq Ids /\ raiseMode \in BOOLEAN /\ size \in Sizes
+  /\ base \in 0 .. MaxN /\ calls \in 1 .. MaxCalls /\ threads \in 0 .. MaxCalls * MaxSize
   /\ entry \in {"imap", "star1", "star2", "single", "seq", "pool"}
   /\ cpc \in CPcs /\ ci \in 0 .. (MaxN + MaxSize) /\ phase \in 0 .. 2
-  /\ culprit \in Items(n) \cup {None} /\ raised \in Items(n) \cup {None}
-  /\ buf \subseteq Items(n) /\ nextR \in 0 .. n
-  /\ out \in Seq({"val", "exc"} \X Items(n))
-  /\ taskQ \in Seq(Items(n) \cup {None}) /\ resultQ \in Seq(Items(n))
-  /\ unfinished \in 0 .. (MaxN + MaxSize)
-  /\ wn \in [WLoc -> 0 .. MaxSize] /\ hold \in [Items(n) -> {"-", "put", "taskDone"}]
+  /\ culprit \in Ids \cup {None} /\ raised \in Ids \cup {None}
+  /\ buf \subseteq Ids /\ nextR \in 0 .. n
+  /\ out \in Seq({"val", "exc"} \X Ids)
+  /\ taskQ \in Seq(Ids \cup {None}) /\ resultQ \in Seq(Ids)
+  /\ unfinished \in 0 .. MaxCalls * (MaxN + MaxSize)
+  /\ wn \in [WLoc -> 0 .. MaxCalls * MaxSize] /\ hold \in [Ids -> {"-", "put", "taskDone"}]
 
 Init ==
   /\ n \in MinN .. MaxN /\ raiseMode \in Modes /\ size \in Sizes /\ entry \in Entries
@@ -113,7 +137,8 @@ Init ==
   /\ fail \in FailSets(n, raiseMode)
   /\ cpc = "call" /\ ci = 0 /\ phase = 0 /\ culprit = None /\ buf = {} /\ nextR = 0 /\ out = <<>> /\ raised = None
   /\ taskQ = <<>> /\ unfinished = 0 /\ resultQ = <<>>
-  /\ wn = [l \in WLoc |-> 0] /\ hold = [i \in Items(n) |-> "-"]
+  /\ wn = [l \in WLoc |-> 0] /\ hold = [i \in Ids |-> "-"]
+  /\ base = 0 /\ calls = 1 /\ threads = 0
 
 -----------------------------------------------------------------------------
 (* caller *)
@@ -128,28 +153,36 @@ Dispatch ==
   /\ cpc = "call"
   /\ IF SingleShortcut
        THEN /\ entry' = "single" /\ cpc' = "single"
-            /\ UNCHANGED <<phase, wn>>
+            /\ UNCHANGED <<phase, wvars, qvars>>
        ELSE IF size < 2
          THEN /\ entry' = "seq" /\ cpc' = (IF n = 0 THEN "done" ELSE "seq")
-              /\ UNCHANGED <<phase, wn>>
+              /\ UNCHANGED <<phase, wvars, qvars>>
          ELSE /\ entry' = "pool" /\ cpc' = (IF n = 0 THEN "emptyT" ELSE "put")
               /\ phase' = 1
-              /\ wn' = [wn EXCEPT !["start"] = size]          \* _init_pool: pool_size threads created
-  /\ UNCHANGED <<n, fail, raiseMode, size, ci, culprit, buf, nextR, out, raised, qvars, hold>>
+              /\ IF FreshQueues
+                   \* new queues, and the new workers work on these: whatever still works on the queues of an
+                   \* earlier call shares nothing with this call any more and leaves the model
+                   THEN /\ taskQ' = <<>> /\ resultQ' = <<>> /\ unfinished' = 0
+                        /\ wn' = [l \in WLoc |-> IF l = "start" THEN size ELSE 0]
+                        /\ hold' = [i \in Ids |-> "-"] /\ threads' = size
+                   ELSE /\ wn' = [wn EXCEPT !["start"] = @ + size]          \* _init_pool: pool_size threads created
+                        /\ threads' = threads + size
+                        /\ UNCHANGED <<qvars, hold>>
+  /\ UNCHANGED <<n, fail, raiseMode, size, base, calls, ci, culprit, buf, nextR, out, raised>>
 
-SingleCall ==     \* _single_call: only item 0 is ever looked at
+SingleCall ==     \* _single_call: only the first item is ever looked at
   /\ cpc = "single"
-  /\ IF raiseMode /\ 0 \in fail
-       THEN raised' = 0 /\ out' = out
-       ELSE out' = <<Res(0)>> /\ raised' = raised
+  /\ IF raiseMode /\ base \in fail
+       THEN raised' = base /\ out' = out
+       ELSE out' = <<Res(base)>> /\ raised' = raised
   /\ cpc' = "done"
   /\ UNCHANGED <<call, ci, phase, culprit, buf, nextR, qvars, wvars>>
 
 SeqCall ==        \* one iteration of the pool_size < 2 loop
   /\ cpc = "seq"
-  /\ IF raiseMode /\ ci \in fail /\ SeqRaises
-       THEN /\ raised' = ci /\ cpc' = "done" /\ UNCHANGED <<out, ci>>
-       ELSE /\ out' = Append(out, Res(ci))          \* raise mode, ~SeqRaises: <<"exc", i>> handed out as a value
+  /\ IF raiseMode /\ (base + ci) \in fail /\ SeqRaises
+       THEN /\ raised' = base + ci /\ cpc' = "done" /\ UNCHANGED <<out, ci>>
+       ELSE /\ out' = Append(out, Res(base + ci))          \* raise mode, ~SeqRaises: <<"exc", i>> handed out as a value
             /\ ci' = ci + 1
             /\ cpc' = (IF ci + 1 = n THEN "done" ELSE "seq")
             /\ raised' = raised
@@ -157,7 +190,7 @@ SeqCall ==        \* one iteration of the pool_size < 2 loop
 
 CPut ==
   /\ cpc = "put"
-  /\ taskQ' = Append(taskQ, ci) /\ unfinished' = unfinished + 1
+  /\ taskQ' = Append(taskQ, base + ci) /\ unfinished' = unfinished + 1
   /\ ci' = ci + 1
   /\ cpc' = (IF ci + 1 = n THEN "emptyT" ELSE "put")
   /\ UNCHANGED <<call, phase, culprit, buf, nextR, out, raised, resultQ, wvars>>
@@ -175,23 +208,27 @@ CEmptyR ==
             ELSE cpc' = "putNone" /\ ci' = 0               \* shutdown()
   /\ UNCHANGED <<call, phase, culprit, buf, nextR, out, raised, qvars, wvars>>
 
-\* first index >= k+1 that is not buffered
-NextGap(k) == CHOOSE m \in (k + 1) .. n : m \notin buf /\ \A j \in (k + 1) .. (m - 1) : j \in buf
+\* `results` is a dictionary: at most one buffered result per key, a later one replaces an earlier one
+BufKeys == {Key(x) : x \in buf}
+BufAt(k) == CHOOSE x \in buf : Key(x) = k
+\* first key >= k+1 that is not buffered
+NextGap(k) == CHOOSE m \in (k + 1) .. (MaxN + 1) : m \notin BufKeys /\ \A j \in (k + 1) .. (m - 1) : j \in BufKeys
 
 CGet ==           \* result_queue.get() + exception test + _get_results re-sequencing up to the next Queue call
   /\ cpc = "get" /\ resultQ # <<>>
-  /\ LET i == Head(resultQ) IN
+  /\ LET e == Head(resultQ)
+         i == Key(e) IN
      /\ resultQ' = Tail(resultQ)
-     /\ IF raiseMode /\ i \in fail
-          THEN /\ culprit' = i /\ cpc' = "fEmptyT"
+     /\ IF raiseMode /\ e \in fail
+          THEN /\ culprit' = e /\ cpc' = "fEmptyT"
                /\ UNCHANGED <<buf, nextR, out>>
           ELSE /\ cpc' = "emptyT" /\ culprit' = culprit
                /\ IF i = nextR
                     THEN LET m == NextGap(i) IN
-                         /\ out' = out \o [k \in 1 .. (m - i) |-> Res(i + k - 1)]
+                         /\ out' = out \o [k \in 1 .. (m - i) |-> IF k = 1 THEN Res(e) ELSE Res(BufAt(i + k - 1))]
                          /\ nextR' = m
-                         /\ buf' = buf \ (i .. m)
-                    ELSE /\ buf' = buf \cup {i} /\ UNCHANGED <<nextR, out>>
+                         /\ buf' = {x \in buf : Key(x) \notin i .. m}
+                    ELSE /\ buf' = {x \in buf : Key(x) # i} \cup {e} /\ UNCHANGED <<nextR, out>>
   /\ UNCHANGED <<call, ci, phase, raised, taskQ, unfinished, wvars>>
 
 CJoin ==
@@ -253,48 +290,60 @@ Consumer == \/ Dispatch \/ SingleCall \/ SeqCall \/ CPut \/ CEmptyT \/ CEmptyR \
 WStart ==
   /\ wn["start"] > 0
   /\ wn' = [wn EXCEPT !["start"] = @ - 1, !["idle"] = @ + 1]
-  /\ UNCHANGED <<call, cvars, qvars, hold>>
+  /\ UNCHANGED <<call, cvars, qvars, hold, threads>>
 
 WGetTask ==       \* task_queue.get(); func(..args) runs inside this step (it shares nothing)
   /\ wn["idle"] > 0 /\ taskQ # <<>> /\ Head(taskQ) # None
   /\ hold' = [hold EXCEPT ![Head(taskQ)] = "put"]
   /\ taskQ' = Tail(taskQ)
   /\ wn' = [wn EXCEPT !["idle"] = @ - 1]
-  /\ UNCHANGED <<call, cvars, unfinished, resultQ>>
+  /\ UNCHANGED <<call, cvars, unfinished, resultQ, threads>>
 
 WGetNone ==
   /\ wn["idle"] > 0 /\ taskQ # <<>> /\ Head(taskQ) = None
   /\ taskQ' = Tail(taskQ)
   /\ wn' = [wn EXCEPT !["idle"] = @ - 1, !["gotNone"] = @ + 1]
-  /\ UNCHANGED <<call, cvars, unfinished, resultQ, hold>>
+  /\ UNCHANGED <<call, cvars, unfinished, resultQ, hold, threads>>
 
 WPut(i) ==        \* the worker that ran item i: result_queue.put((i, result))
-  /\ i \in Items(n) /\ hold[i] = "put"
+  /\ i \in Ids /\ hold[i] = "put"
   /\ resultQ' = Append(resultQ, i)
   /\ hold' = [hold EXCEPT ![i] = "taskDone"]
-  /\ UNCHANGED <<call, cvars, taskQ, unfinished, wn>>
+  /\ UNCHANGED <<call, cvars, taskQ, unfinished, wn, threads>>
 
 WTaskDone(i) ==
-  /\ i \in Items(n) /\ hold[i] = "taskDone"
+  /\ i \in Ids /\ hold[i] = "taskDone"
   /\ unfinished' = unfinished - 1
   /\ hold' = [hold EXCEPT ![i] = "-"]
   /\ wn' = [wn EXCEPT !["idle"] = @ + 1]
-  /\ UNCHANGED <<call, cvars, taskQ, resultQ>>
+  /\ UNCHANGED <<call, cvars, taskQ, resultQ, threads>>
 
 WExit ==
   /\ wn["gotNone"] > 0
   /\ unfinished' = unfinished - 1
   /\ wn' = [wn EXCEPT !["gotNone"] = @ - 1, !["exited"] = @ + 1]
-  /\ UNCHANGED <<call, cvars, taskQ, resultQ, hold>>
+  /\ UNCHANGED <<call, cvars, taskQ, resultQ, hold, threads>>
 
-WorkerStep == WStart \/ WGetTask \/ WGetNone \/ WExit \/ \E i \in Items(MaxN) : WPut(i) \/ WTaskDone(i)
+WorkerStep == WStart \/ WGetTask \/ WGetNone \/ WExit \/ \E i \in Ids : WPut(i) \/ WTaskDone(i)
 
-Next == Consumer \/ WorkerStep
+\* the next call on the same pool object
+NewCallWith(n2, f2, rm2, e2) ==
+  /\ cpc = "done" /\ calls < MaxCalls
+  /\ n2 \in MinN .. MaxN /\ rm2 \in Modes /\ e2 \in Entries /\ (e2 # "imap" => n2 >= 1)
+  /\ f2 \in FailSets(n2, rm2)
+  /\ calls' = calls + 1 /\ base' = base + n
+  /\ n' = n2 /\ raiseMode' = rm2 /\ entry' = e2 /\ size' = size
+  /\ fail' = fail \cup {base + n + i : i \in f2}
+  /\ cpc' = "call" /\ ci' = 0 /\ phase' = 0 /\ culprit' = None /\ buf' = {} /\ nextR' = 0 /\ out' = <<>> /\ raised' = None
+  /\ UNCHANGED <<qvars, wvars>>
+NewCall == \E n2 \in MinN .. MaxN, rm2 \in Modes, e2 \in Entries : \E f2 \in FailSets(n2, rm2) : NewCallWith(n2, f2, rm2, e2)
+
+Next == Consumer \/ WorkerStep \/ NewCall
 
 Spec     == Init /\ [][Next]_vars
 FairSpec == /\ Spec /\ WF_vars(Consumer)
             /\ WF_vars(WStart) /\ WF_vars(WGetTask \/ WGetNone) /\ WF_vars(WExit)
-            /\ \A i \in Items(MaxN) : WF_vars(WPut(i)) /\ WF_vars(WTaskDone(i))
+            /\ \A i \in Ids : WF_vars(WPut(i)) /\ WF_vars(WTaskDone(i))
 
 -----------------------------------------------------------------------------
 (* the property *)
@@ -305,12 +354,12 @@ Done == cpc = "done"
 \* exception is never handed out as a value
 OrderedPrefix ==
   /\ Len(out) <= n
-  /\ \A p \in 1 .. Len(out) : out[p] = Res(p - 1) /\ (raiseMode => out[p][1] = "val")
+  /\ \A p \in 1 .. Len(out) : out[p] = Res(base + p - 1) /\ (raiseMode => out[p][1] = "val")
 
 \* at the end: one result per input, or (raise mode with failing items) the exception of a failing item
 DoneComplete ==
-  Done => IF raiseMode /\ fail # {}
-            THEN raised \in fail
+  Done => IF raiseMode /\ fail \cap Cur # {}
+            THEN raised \in fail \cap Cur
             ELSE raised = None /\ Len(out) = n
 
 \* the same two statements outside the behaviours that the as-written variants are known to get wrong (these
@@ -320,20 +369,20 @@ KnownStar == ~StarByCount /\ entry = "single" /\ n > 1
 OrderedPrefixX == KnownSeq \/ OrderedPrefix
 DoneCompleteX  == KnownSeq \/ KnownStar \/ DoneComplete
 
-RaisedSound == raised # None => Done /\ raiseMode /\ raised \in fail
+RaisedSound == raised # None => Done /\ raiseMode /\ raised \in fail \cap Cur
 
 ConsumerCanMove == /\ ~Done
                    /\ cpc = "get" => resultQ # <<>>
                    /\ cpc = "join" => unfinished = 0
 WorkerCanMove == \/ wn["start"] > 0 \/ wn["gotNone"] > 0
-                 \/ \E i \in Items(n) : hold[i] # "-"
+                 \/ \E i \in Ids : hold[i] # "-"
                  \/ wn["idle"] > 0 /\ taskQ # <<>>
 Quiescent == ~ConsumerCanMove /\ ~WorkerCanMove
 
 \* the call cannot get stuck: while it is not finished, some thread can move
 StuckFree == ~Done => ~Quiescent
 \* (not part of the property, model hygiene) when nothing can move, no worker thread is left behind
-NoLeak == Quiescent => wn["exited"] = (IF entry = "pool" THEN size ELSE 0)
+NoLeak == Quiescent => wn["exited"] = threads
 
 Terminates == <>Done
 
@@ -348,6 +397,6 @@ FewFailSets(k, rm) == IF rm THEN SUBSET Items(k)
 
 \* sanity of the model: the queue counter is what Queue would compute
 CounterOK == /\ unfinished >= Len(taskQ)
-             /\ wn["start"] + wn["idle"] + wn["gotNone"] + wn["exited"] + Cardinality({i \in Items(n) : hold[i] # "-"})
-                  = (IF entry = "pool" THEN size ELSE 0)
+             /\ wn["start"] + wn["idle"] + wn["gotNone"] + wn["exited"] + Cardinality({i \in Ids : hold[i] # "-"})
+                  = threads
 =============================================================================
